@@ -76,6 +76,8 @@ type CaseCfg struct {
 	Custom    map[string]*CustomOp
 	Stateless []string
 	Costs     map[string]float64
+	// RegisterAlways: register VarNames even in undefined-variable mode (mixed registered / undefined names)
+	RegisterAlways bool
 	// Directive: when set, the source carries ";;;;" directives selecting this subset (Opts is only the base config)
 	Directive *OptSet
 }
@@ -128,7 +130,7 @@ func buildConfig(c CaseCfg, cfgRec *Recorder) *eval.Config {
 		for k, v := range c.Keys {
 			cc.VariableKeyMap[k] = v
 		}
-	} else if !c.Undefined {
+	} else if !c.Undefined || c.RegisterAlways {
 		for i, n := range c.VarNames {
 			cc.VariableKeyMap[n] = eval.VariableKey(i + 1)
 		}
